@@ -62,8 +62,7 @@ type pop_ = G | Q | R of int | N of int | D of int
 let engines_of_type t = if t = 3 then 2 else 1
 let draw_tokens_of_type t = match t with 0 -> 2 | 1 -> 1 | 2 -> 2 | 3 -> 3 | 4 -> 1 | _ -> failwith "type"
 
-let judge_prog cc ic =
-  let site = "Seeder::getSeed" in
+let judge_prog ?(clause = "seeder_deterministic") ?(site = "Seeder::getSeed") ?(tag = "prog") cc ic =
   let pre1 = next_int cc in let pre2 = next_int cc in let root = next_int cc in
   let nops = next_int cc in
   let ops = read_list cc (fun c -> match next c with
@@ -72,7 +71,7 @@ let judge_prog cc ic =
   check_abnormal ic site;
   let runs = read_runs ic in
   (* O *)
-  check_equal "seeder_deterministic" site runs;
+  check_equal clause site runs;
   (* C *)
   expect ic "X";
   let ns = next_int ic in
@@ -114,7 +113,7 @@ let judge_prog cc ic =
     ops;
   if !impl <> [] then disagree "C16.seeder_model" site "implementation output too long";
   let nt = pre1 <> pre2 && List.exists (function G | N _ -> true | _ -> false) ops in
-  (nt, "prog")
+  (nt, tag)
 
 (* ------------------------------------------------------------------ fg *)
 let nats_of_ints l = List.map nat_of_int l
@@ -208,6 +207,11 @@ let judge (_id : int) (cc : cursor) (ic : cursor) : bool * string =
   let kind = next cc in
   match kind with
   | "prog" -> judge_prog cc ic
+  | "thread" -> judge_prog ~clause:"program_deterministic" ~site:"Seeder::instance_(threads)" ~tag:"thread" cc ic
+  | "amdpkeep" ->
+    ignore (next cc); ignore (next cc);
+    let b1 = next_int cc in let b2 = next_int cc in
+    judge_generic "returned_value_independent" "AMDP::makeDiscretizer" (b1 <> b2) "amdpkeep" ic
   | "fg" -> judge_fg cc ic
   | "amdp" -> judge_amdp cc ic
   | "amdpm" ->
